@@ -35,6 +35,10 @@ func honest(n int) []ss.EditItem {
 func frameCount(ms []ss.Msg) int {
 	n := 0
 	for _, m := range ms {
+		if m.Kind == "file" { // size, 64 KiB pieces, end marker
+			n += 2 + (len(m.Bytes())+65535)/65536
+			continue
+		}
 		if len(m.Chunks) == 0 {
 			n++
 		}
@@ -175,6 +179,10 @@ func gen(c *core.Ctx) error {
 		{dmsg(1, 5), dmsg(2, 0), dmsg(3, 9)},
 		{dmsg(4, 3, 4, 2), dmsg(5, 6)},
 		{dmsg(6, 20), dmsg(7, 1, 1), dmsg(8, 2)},
+		{{Kind: "file", Chunks: []ss.Data{ss.Lit(core.Payload(3, 10))}}}, // PutFile / GetFile: size, content, end marker
+	}
+	if !c.Quick() {
+		transcripts = append(transcripts, []ss.Msg{{Kind: "file", Chunks: []ss.Data{ss.Lit(core.Payload(5, 70000))}}})
 	}
 	setups := []ss.Setup{{Kind: "keyed", Key: key}, {Kind: "keyed", Key: key, PreAB: []ss.Data{ss.Lit([]byte("hi"))}, PreBA: []ss.Data{ss.Lit([]byte("there"))}, ReadMax: 7, Ctx: true}}
 	apis := []string{"complete", "msgall", "sre"}
@@ -221,6 +229,9 @@ func gen(c *core.Ctx) error {
 					api := apis[k%3]
 					if ti == 0 { // single-frame messages: also the per-frame receive APIs (ReceiveFrame is what GetSecret/GetFile use)
 						api = []string{"complete", "frame", "msgall", "framewe", "sre", "frame"}[k%6]
+					}
+					if tr[0].Kind == "file" {
+						api = "getfile"
 					}
 					return &desc{Setup: su, Warm: w, Msgs: tr, Edit: edit, API: api, ASends: aSends, Fault: fault}
 				}
